@@ -156,6 +156,10 @@ pub enum Form {
     SameRef,
     /// text with literal operands parsed
     Literal,
+    /// first operand a literal, the others input fields
+    LitRef,
+    /// first operand an input field, the others literals
+    RefLit,
 }
 
 const OPERAND_NAMES: [&str; 4] = ["a", "b", "c", "e"];
@@ -184,6 +188,21 @@ pub fn observe_app(app: &App, form: Form) -> Result<Obs, String> {
             let mut m = BTreeMap::new();
             for (i, v) in ops.iter().enumerate() {
                 m.insert(if same { "a".to_string() } else { OPERAND_NAMES[i.min(3)].to_string() }, v.to_value());
+            }
+            Ok(eval_expr(&parsed, &Value::Map(m)))
+        }
+        Form::LitRef | Form::RefLit => {
+            let lit_first = form == Form::LitRef;
+            let t = app.tree(&|i, v| if (i == 0) == lit_first { RE::Val(v.clone()) } else { RE::reff(OPERAND_NAMES[i.min(3)]) });
+            let text = t.unparse().ok_or("no literal form")?;
+            let parsed = match parse_expr(&text) {
+                Err(p) => return Ok(Obs::Panic(format!("parse: {p}"))),
+                Ok(Err(e)) => return Err(format!("mixed text {text:?} rejected by parser: {e}")),
+                Ok(Ok(e)) => e,
+            };
+            let mut m = BTreeMap::new();
+            for (i, v) in app.operands().iter().enumerate() {
+                m.insert(OPERAND_NAMES[i.min(3)].to_string(), v.to_value());
             }
             Ok(eval_expr(&parsed, &Value::Map(m)))
         }
@@ -497,6 +516,15 @@ fn forms_for(app: &App, literal_core: &BTreeSet<RV>, thorough: bool) -> Vec<Form
     if ops.iter().all(|v| literal_ok(v)) && (thorough || ops.iter().all(|v| literal_core.contains(*v))) {
         f.push(Form::Literal);
     }
+    // mixed: one side written as a literal in the text, the other supplied by the input
+    if ops.len() == 2 {
+        if literal_ok(ops[0]) && literal_core.contains(ops[0]) {
+            f.push(Form::LitRef);
+        }
+        if literal_ok(ops[1]) && literal_core.contains(ops[1]) {
+            f.push(Form::RefLit);
+        }
+    }
     f
 }
 
@@ -800,7 +828,7 @@ pub fn run(prop: Prop, tier: Tier) -> i32 {
     let v0 = pool::v0();
     let small = pool::core(tier.pick(6, 10));
     let core = pool::core(tier.pick(6, 25));
-    let lit_core: BTreeSet<RV> = pool::core(25).into_iter().chain(pool::ints().into_iter().take(12)).collect();
+    let lit_core: BTreeSet<RV> = pool::core(25).into_iter().chain(pool::ints().into_iter().take(12)).chain(pool::lists()).chain(pool::maps()).chain([RV::str("a"), RV::str("true"), RV::str("2015-07-30T03:26:13Z")]).collect();
     rep.bound("pool_v0", v0.len());
     rep.bound("round2_core", core.len());
     rep.bound("if_branch_pool", small.len());
@@ -885,6 +913,8 @@ pub fn replay(prop: Prop, case: &J) -> i32 {
                 Some("Refs") => Form::Refs,
                 Some("SameRef") => Form::SameRef,
                 Some("Literal") => Form::Literal,
+                Some("LitRef") => Form::LitRef,
+                Some("RefLit") => Form::RefLit,
                 _ => return 2,
             };
             let mut acc = Acc::new();
